@@ -1,4 +1,5 @@
 import MidoProofs.Props.C03
+import MidoProofs.TableTie
 #print axioms Mido.C03_invariant
 #print axioms Mido.C03_atomic
 #print axioms Mido.C03_shape
@@ -7,3 +8,5 @@ import MidoProofs.Props.C03
 #print axioms Mido.construct_valid
 #print axioms Mido.copyObj_valid
 #print axioms Mido.setAttr_valid
+#print axioms Mido.tie_int_defaults
+#print axioms Mido.tie_specs
